@@ -214,13 +214,15 @@ def run(ctx: Ctx):
         cases.append(("corpus:" + f.name, json.loads(f.read_text())["case"]))
     # bounded-exhaustive: every word of the given length over {7 lifecycle requests, tick, shutdown, startup}
     if not ctx.thorough:
-        plan = [("dns-client", 3, [(0, 0), (1, 2)])]
+        plan = [("dns-client", 3, [(0, 0), (1, 2)], "computer"), ("terminal", 2, [(1, 1)], "router"), ("icmp", 2, [(0, 2)], "firewall")]
     else:
-        plan = [("dns-client", 4, [(0, 0), (1, 2)]), ("terminal", 3, [(0, 0), (2, 1)]), ("ntp-client", 3, [(1, 1)])]
-    for t, depth, dur_list in plan:
+        plan = [("dns-client", 4, [(0, 0), (1, 2)], "computer"), ("terminal", 3, [(0, 0), (2, 1)], "computer"),
+                ("ntp-client", 3, [(1, 1)], "server"), ("terminal", 3, [(1, 1)], "router"), ("icmp", 3, [(0, 2)], "firewall"),
+                ("user-session-manager", 3, [(1, 0)], "router")]
+    for t, depth, dur_list, kind in plan:
         for durs in dur_list:
-            for k, c in enumerate(rig.exhaustive_cases(depth, t, durs)):
-                cases.append((f"exh:{t}:{depth}:{durs}:{k}", c))
+            for k, c in enumerate(rig.exhaustive_cases(depth, t, durs, kind)):
+                cases.append((f"exh:{kind}:{t}:{depth}:{durs}:{k}", c))
     n = ctx.scale(250, 5000)
     rng = ctx.rng.fork("svc")
     for k in range(n):
